@@ -21,6 +21,7 @@
    field there makes every run fail, including this translator (loud failure, not a table row).
 """
 import ast
+import re
 import concurrent.futures
 import json
 import multiprocessing
@@ -158,6 +159,31 @@ def worker(name):
                             fields.extend(ph)
                 ents.append({"kind": kind, "name": nm, "fields": sorted(set(fields)), "bad": bad})
         res["entries"] = ents
+        rows = []
+        for e in statements.fc_statements:
+            nm = e.get("name", "?")
+            kind = 1 if nm.startswith("f_") else 0
+            clauses = ("arg_decl",) if kind == 1 else ("f_arg_decl", "f_result_decl")
+            needed = set()
+            for cl in clauses:
+                for line in (e.get(cl) or []):
+                    fields = placeholders(line)
+                    if fields is None:
+                        raise RuntimeError("unparsable declaration template in %s.%s: %r" % (nm, cl, line))
+                    needed.update(re.findall(r"\bC_[A-Z0-9_]+\b", line))
+                    if kind == 0 and "f_type" in fields:
+                        # explicit interface declarations get no typemap module from the emitter: the kind of {f_type}
+                        # has to come from the entry itself
+                        needed.add("{f_kind}")
+            fm = sorted(set(x for k, v in (e.get("f_module") or {}).items() if k != "__line__" for x in v))
+            line = []
+            if e.get("f_module_line"):
+                for use in e["f_module_line"].replace(" ", "").split(";"):
+                    mname, syms = use.split(":")
+                    line.extend(syms.split(","))
+            if needed or fm or line:
+                rows.append({"name": nm, "kind": kind, "needed": sorted(needed), "f_module": fm, "line": sorted(set(line))})
+        res["fmodule_rows"] = rows
     return res
 
 
@@ -263,6 +289,7 @@ def build(results):
         if "entries" in r:
             entries = r["entries"]
             build.htext = r.get("htext", {})
+            build.fmodule_rows = r.get("fmodule_rows", [])
     assigned = scan_assignments()
     provided = {}
     common_assigned = set()
@@ -381,15 +408,68 @@ def undeclared_uses(graphs, htext):
     return out
 
 
+GEN_FMOD = os.path.join(common.LEAN, "ShroudVerif", "Gen", "FModule.lean")
+
+
+def scan_emitter_adds():
+    """literal symbols of `self.set_f_module(<modules>, "<module>", "<sym>", ...)` calls in wrapf.py"""
+    tree = ast.parse(open(os.path.join(common.REPO, "shroud", "wrapf.py")).read())
+    out = set()
+    for node in ast.walk(tree):
+        if isinstance(node, ast.Call) and isinstance(node.func, ast.Attribute) and node.func.attr == "set_f_module":
+            for a in node.args[2:]:
+                if isinstance(a, ast.Constant) and isinstance(a.value, str):
+                    out.add(a.value)
+    return sorted(out)
+
+
+def render_fmodule(rows, emitter):
+    syms = sorted(set(x for r in rows for k in ("needed", "f_module", "line") for x in r[k]) | set(emitter))
+    sid = {n: i for i, n in enumerate(syms)}
+
+    def ids(l):
+        return "[%s]" % ", ".join(str(sid[x]) for x in l)
+    L = ["/- GENERATED by tools/extract_helpers.py from the /repo working tree.  Do not edit. -/",
+         "namespace Shroud.Gen.FModule", "",
+         "/-- (entry index, kind 0 = c_ entry (f_arg_decl / f_result_decl: explicit bind(C) interface declaration, the emitter adds",
+         "    no typemap module) 1 = f_ entry (arg_decl), symbols named by the declaration templates (`{f_type}` of a kind-0 row",
+         "    counts as the symbol `{f_kind}`), symbols of the entry's f_module, symbols of its f_module_line) -/",
+         "def declRows : List (Nat × Nat × List Nat × List Nat × List Nat) := ["]
+    L.append(",\n".join("  (%d, %d, %s, %s, %s)" % (i, r["kind"], ids(r["needed"]), ids(r["f_module"]), ids(r["line"]))
+                        for i, r in enumerate(rows)))
+    L += ["]", "", "/-- symbols the emitter adds on its own (literal set_f_module calls in wrapf.py) -/",
+          "def emitterAdds : List Nat := %s" % ids(emitter), "",
+          "def rowNames : List String := [" + ", ".join('"%s"' % r["name"] for r in rows) + "]", "",
+          "def symbolNames : List String := [" + ", ".join('"%s"' % x for x in syms) + "]", "",
+          "end Shroud.Gen.FModule"]
+    return "\n".join(L) + "\n"
+
+
+def uncovered_decl_symbols(rows, emitter):
+    """implementation-level statement of the table theorem"""
+    out = []
+    for r in rows:
+        have = set(r["f_module"]) | set(r["line"]) | (set(emitter) if r["kind"] == 1 else set())
+        for x in r["needed"]:
+            if x not in have:
+                out.append((r["name"], x))
+    return out
+
+
 def regenerate(jobs=None):
     results = collect(jobs)
     graphs, conflicts, provided, entries, failed = build(results)
     text, nid, info = render(graphs, provided, entries)
     changed = write_if_changed(GEN, text)
+    frows = getattr(build, "fmodule_rows", [])
+    emitter = scan_emitter_adds()
+    changed = write_if_changed(GEN_FMOD, render_fmodule(frows, emitter)) or changed
+    info["fmodule"] = {"rows": len(frows), "with_needed": sum(1 for r in frows if r["needed"]), "emitter_adds": emitter,
+                       "uncovered": uncovered_decl_symbols(frows, emitter)[:10]}
     info.update({"changed": changed, "conflicts": conflicts[:5], "failed_runs": failed[:5],
                  "unparsable_templates": [(e["name"], e["bad"][:2]) for e in entries if e["bad"]][:5],
                  "missing_placeholders": missing_placeholders(provided, entries)[:10]})
-    data = {"htext": getattr(build, "htext", {}), "graphs": graphs, "nid": nid, "provided": {k: sorted(v) for k, v in provided.items()}, "entries": entries,
+    data = {"fmodule_rows": frows, "emitter_adds": emitter, "htext": getattr(build, "htext", {}), "graphs": graphs, "nid": nid, "provided": {k: sorted(v) for k, v in provided.items()}, "entries": entries,
             "failed": failed}
     return info, data
 
